@@ -695,8 +695,131 @@ theorem term_cell_own {S : Schema} (K : KeyOrderOn S P) {o : MergeOpts}
           exact hm.symm
   exact cell_concl (fx := fx) K x0 rfl htd htt htk hss.symm hkv hcell
 
-/-- the cell for two leaf / leaf-list nodes that meet, the source node possibly a copy inside a DELETED subtree (no metadata,
-operation `delete` inherited): `lyd_diff_merge_delete` reads of the source node the schema node, the value and the default flag only -/
+/-- a plain good node whose operation `create` is inherited is exact where there is no instance -/
+theorem exactE_plain_create {S : Schema} {c : DNode} (hg : goodN S P c = true) (hp : plainN c = true)
+    (hk : S.isKey c.sid = false) : exactE S P (some .create) none c = true := by
+  have hd : domB S P c = true := domB_iff.mpr (goodN_dom hg)
+  have hm : metaOKB c = true := by simp [metaOKB, plainN_metas hp]
+  have ho : effOp c (some .create) = some .create := by simp [effOp, plainN_ownOp hp]
+  cases c with
+  | term s f m v =>
+    simp only [exactE, hd, hm, ho, Bool.and_eq_true, Bool.true_and, Bool.and_true]
+    simpa [DNode.sid] using hk
+  | inner s f m ks =>
+    have hgk : goodT S P ks = true := goodN_kidsT hg
+    have hpk : plainL ks = true := by simpa [DNode.kids] using plainN_kids hp
+    simp only [exactE, hd, hm, ho, hgk, hpk, Bool.and_eq_true, Bool.true_and, Bool.and_true]
+    simpa [DNode.sid] using hk
+
+/-- **the cells for a leaf / leaf-list node inside a CREATED subtree** (no metadata, `create` inherited) met by a node of the
+second diff: `delete` — nothing is left; `replace` / `none` — the node is created with the new value / default flag -/
+theorem term_cell_plain {S : Schema} (K : KeyOrderOn S P) {o : MergeOpts} {sin : Option Op} {s : Nat} {f : Flags} {v : Bytes}
+    {src : DNode} {y0 : Option DNode} (hst : src.isTerm = true)
+    (hm : matchP S src (.term s f [] v) = true) (htex : exactE S P (some .create) none (.term s f [] v) = true)
+    (hsex : exactE S P sin y0 src = true) (hls : litN src = true)
+    (hgy : ∀ y, y0 = some y → goodN S P y = true ∧ y.sid = src.sid)
+    {sop : Op} (hsop : effOp src sin = some sop) (hy : y0.map normN = some (normN (.term s f [] v)))
+    (hos : (∃ op, ownOp src = some op) ∨ (src.metas = [] ∧ sop = .delete)) :
+    ∃ m, mergeCell S o sop (.term s f [] v) .create src = .ok (m, false) ∧ Dom S P m ∧ m.isTerm = true ∧ m.sid = s ∧
+      (∀ x, matchP S m x = matchP S (.term s f [] v) x) ∧
+      (((isRedundant S (some .create) m).2 = true ∧ tEff src sop = none) ∨
+        ((isRedundant S (some .create) m).2 = false ∧ Acts S P fx (some .create) m none (tEff src sop))) := by
+  obtain ⟨htd, _, htk⟩ := exactE_base htex
+  obtain ⟨hsd, _, _⟩ := exactE_base hsex
+  have hss : s = src.sid := matchP_sid hm
+  have hcre : sop = .create → False := by
+    rintro rfl
+    obtain ⟨h, _⟩ := exactE_create hsex hsop
+    rw [h] at hy; simp at hy
+  have hS : S.isTerm s = true := by have := htd.typed; simpa [DNode.isTerm, DNode.sid] using this.symm
+  have h1 : S.isUserOrd s = false := htd.nuo
+  have h2 : S.isDupInst s = false := htd.ndi
+  have hk : S.isKey s = false := htk
+  obtain ⟨y, rfl, hyt, hyv, hyd⟩ := y_of_tEff (cop := .create) (by simpa [tEff] using hy) (by decide)
+  cases src with
+  | inner => simp [DNode.isTerm] at hst
+  | term s' f2 ms v2 =>
+  simp only [DNode.sid] at hss
+  subst hss
+  -- a plain node with a term's flags / value changed still is a good plain node at the same place
+  have hplainm : ∀ (f' : Flags) (v' : Bytes), (S.isKind s .leaf = true ∨ v' = v) →
+      Dom S P (.term s f' [] v') ∧ (∀ x, matchP S (.term s f' [] v') x = matchP S (.term s f [] v) x) ∧
+        Acts S P fx (some .create) (.term s f' [] v') none (some (normN (.term s f' [] v'))) := by
+    intro f' v' hkv
+    have hd' : Dom S P (.term s f' [] v') := by
+      refine ⟨h1, h2, htd.typed, ?_⟩
+      rcases hkv with hl | rfl
+      · exact K.pinv.punsorted (isSorted_of_leaf hl)
+      · rw [K.pinv.pcongr (x := .term s f' [] v') (y := .term s f [] v') rfl rfl rfl]; exact htd.sat
+    refine ⟨hd', ?_, ?_⟩
+    · intro x
+      rcases hkv with hl | rfl
+      · rw [matchP_leaf_eq (d := .term s f' [] v') hl, matchP_leaf_eq (d := .term s f [] v) hl]
+        rfl
+      · exact matchP_of_same_data (d := .term s f [] v') (d' := .term s f' [] v') h2 rfl rfl rfl x
+    · have hg : goodN S P (.term s f' [] v') = true := goodN_iff.mpr ⟨hd', by simp [DNode.kids, goodT_nil]⟩
+      exact acts_create K (exactE_plain_create hg rfl hk) (by simp [effOp, ownOp, getMeta, DNode.metas])
+  cases sop with
+  | create => exact absurd rfl (fun h => hcre h)
+  | delete =>
+    obtain ⟨y', hy', hdq, _⟩ := exactE_delete hsex hsop
+    cases hy'
+    have hn := (dataEq_iff_norm _ _).mp hdq
+    obtain ⟨_, _, hv', hd'⟩ := normN_term_val (x := y) (by rw [hn]; rfl)
+    have hvv : v2 = v := by rw [← hv', hyv]
+    subst hvv
+    have hff : f2.dflt = f.dflt := by rw [← hd', hyd]
+    let m : DNode := .term s f [("operation", bs "none"), ("orig-default", boolBytes f2.dflt)] v2
+    have hsame : sameInst S (.term s f [] v2) (.term s f2 ms v2) = true := by
+      rcases kind_of_isTerm hS with hk' | hk' <;> simp [sameInst, isKind_iff.mp hk', DNode.sid, DNode.val]
+    have hcell : mergeCell S o .delete (.term s f [] v2) .create (.term s f2 ms v2) = .ok (m, false) := by
+      show (mergeDelete S _ .create _).map (·, false) = _
+      unfold mergeDelete
+      simp [hsame, Except.map, changeOp, eraseMeta, DNode.setMetas, DNode.metas, Op.str, hS, DNode.sid, addMeta, h2,
+        DNode.setKids, DNode.flags, m]
+    have hmd : Dom S P m := ⟨h1, h2, htd.typed, by
+      rw [K.pinv.pcongr (x := m) (y := .term s f [] v2) rfl rfl rfl]; exact htd.sat⟩
+    refine ⟨m, hcell, hmd, rfl, rfl, fun x => matchP_of_same_data (d := .term s f [] v2) (d' := m) h2 rfl rfl rfl x, Or.inl ⟨?_, by simp [tEff]⟩⟩
+    exact redundant_none_term S _ m (effOp_own' (ownOp_of_metas_cons m .none _ rfl) _) hS (by simp [m, getMeta, DNode.metas, DNode.flags, hff])
+  | replace =>
+    obtain ⟨_, y', hy', hleaf, hov, hod, hvne⟩ := exactE_replace hsex hsop
+    cases hy'
+    have hne : v2 ≠ v := by rw [← hyv]; exact hvne
+    have hleaf : S.isKind s .leaf = true := hleaf
+    have hkd : S.kind? s = some .leaf := isKind_iff.mp hleaf
+    let m : DNode := .term s { f with dflt := f2.dflt, new := true } [] v2
+    have hsame : sameInst S (.term s f [] v) (.term s f2 ms v2) = false := by
+      simp [sameInst, hkd, DNode.sid, DNode.val]
+      exact fun h => hne h.symm
+    have hcell : mergeCell S o .replace (.term s f [] v) .create (.term s f2 ms v2) = .ok (m, false) := by
+      show (mergeReplace S _ .create _).map (·, false) = _
+      unfold mergeReplace
+      simp [hsame, Except.map, hkd, DNode.sid, changeTerm, DNode.setVal, DNode.setFlags, DNode.flags,
+        DNode.setDflt, DNode.val, op_beq, m]
+    obtain ⟨hmd, hmm, hact⟩ := hplainm { f with dflt := f2.dflt, new := true } v2 (Or.inl hleaf)
+    refine ⟨m, hcell, hmd, rfl, rfl, hmm, Or.inr ⟨?_, ?_⟩⟩
+    · rw [redundant_false_of_op S _ m .create (by simp [m, effOp, ownOp, getMeta, DNode.metas]) (by decide) h1]
+    · have : tEff (.term s f2 ms v2) .replace = some (normN m) := by simp [tEff, normN, m]
+      rw [this]; exact hact
+  | none =>
+    obtain ⟨y', hy', hxv, _⟩ := exactE_none_term hsex hsop rfl
+    cases hy'
+    have hvv : v2 = v := by rw [← hyv]; exact hxv.symm
+    subst hvv
+    let m : DNode := .term s { f with dflt := f2.dflt } [] v2
+    have hcell : mergeCell S o .none (.term s f [] v2) .create (.term s f2 ms v2) = .ok (m, false) := by
+      show (mergeNone S _ .create _).map (·, false) = _
+      simp [mergeNone, Except.map, DNode.sid, hS, DNode.setDflt, DNode.setFlags, DNode.flags, m]
+    obtain ⟨hmd, hmm, hact⟩ := hplainm { f with dflt := f2.dflt } v2 (Or.inr rfl)
+    refine ⟨m, hcell, hmd, rfl, rfl, hmm, Or.inr ⟨?_, ?_⟩⟩
+    · rw [redundant_false_of_op S _ m .create (by simp [m, effOp, ownOp, getMeta, DNode.metas]) (by decide) h1]
+    · have : tEff (.term s f2 ms v2) .none = some (normN m) := by simp [tEff, normN, m]
+      rw [this]; exact hact
+
+/-- **the cell for two leaf / leaf-list nodes that meet** — the target node an exact literal node with an operation of its own, or a
+copy inside a CREATED subtree (no metadata, `create` inherited); the source node an exact literal node with an operation of its
+own, or a copy inside a DELETED subtree (`lyd_diff_merge_delete` reads of it the schema node, the value and the default flag only).
+The node of the cell is dropped and the instance is as before, or it is kept and acts on the instance like `t` followed by `src`. -/
 theorem term_cell {S : Schema} (K : KeyOrderOn S P) {o : MergeOpts}
     (hq : o.defaults = true → Generated.Diff13.mergeDfltNeedsDeletedDflt = true) {cur sin : Option Op} {t src : DNode}
     {x0 y0 : Option DNode} (htt : t.isTerm = true) (hst : src.isTerm = true)
@@ -704,43 +827,67 @@ theorem term_cell {S : Schema} (K : KeyOrderOn S P) {o : MergeOpts}
     (hsex : exactE S P sin y0 src = true) (hls : litN src = true)
     (hgx : ∀ x, x0 = some x → goodN S P x = true ∧ x.sid = t.sid) (hgy : ∀ y, y0 = some y → goodN S P y = true ∧ y.sid = src.sid)
     {cop sop : Op} (hcop : effOp t cur = some cop) (hsop : effOp src sin = some sop) (hy : y0.map normN = tEff t cop)
-    (hsafe : safeP S cur sin t src = true) (hot' : ∃ op, ownOp t = some op)
+    (hsafe : safeP S cur sin t src = true)
+    (hot' : (∃ op, ownOp t = some op) ∨ (t.metas = [] ∧ cur = some .create))
     (hos' : (∃ op, ownOp src = some op) ∨ (src.metas = [] ∧ sop = .delete)) :
     ∃ m, mergeCell S o sop t cop src = .ok (m, false) ∧ Dom S P m ∧ m.isTerm = true ∧ m.sid = t.sid ∧
-      (∀ x, matchP S m x = matchP S t x) ∧ (∃ op, ownOp m = some op) ∧
-      (((isRedundant S none m).2 = true ∧ tEff src sop = x0.map normN) ∨
-        ((isRedundant S none m).2 = false ∧ Acts S P fx cur m (x0.map normN) (tEff src sop))) := by
-  rcases hos' with hos' | ⟨hmeta, rfl⟩
-  · exact term_cell_own K hq htt hst hm htex hlt hsex hls hgx hgy hcop hsop hy hsafe hot' hos'
-  · cases src with
-    | inner => simp [DNode.isTerm] at hst
-    | term s f2 ms v2 =>
+      (∀ x, matchP S m x = matchP S t x) ∧
+      (((isRedundant S cur m).2 = true ∧ tEff src sop = x0.map normN) ∨
+        ((isRedundant S cur m).2 = false ∧ Acts S P fx cur m (x0.map normN) (tEff src sop))) := by
+  rcases hot' with hot' | ⟨hmeta, rfl⟩
+  · -- the target node has an operation of its own
+    have hown : ∃ m, mergeCell S o sop t cop src = .ok (m, false) ∧ Dom S P m ∧ m.isTerm = true ∧ m.sid = t.sid ∧
+        (∀ x, matchP S m x = matchP S t x) ∧ (∃ op, ownOp m = some op) ∧
+        (((isRedundant S none m).2 = true ∧ tEff src sop = x0.map normN) ∨
+          ((isRedundant S none m).2 = false ∧ Acts S P fx cur m (x0.map normN) (tEff src sop))) := by
+      rcases hos' with hos' | ⟨hmeta, rfl⟩
+      · exact term_cell_own K hq htt hst hm htex hlt hsex hls hgx hgy hcop hsop hy hsafe hot' hos'
+      · cases src with
+        | inner => simp [DNode.isTerm] at hst
+        | term s f2 ms v2 =>
+          simp only [DNode.metas] at hmeta
+          subst hmeta
+          obtain ⟨hsd, _, hsk⟩ := exactE_base hsex
+          obtain ⟨y, rfl, hdq, _⟩ := exactE_delete hsex hsop
+          let src' : DNode := .term s f2 [("operation", bs "delete")] v2
+          have hown' : ownOp src' = some .delete := ownOp_of_metas src' .delete rfl
+          have hsd' : Dom S P src' := ⟨hsd.nuo, hsd.ndi, hsd.typed, by
+            rw [K.pinv.pcongr (x := src') (y := .term s f2 [] v2) rfl rfl rfl]; exact hsd.sat⟩
+          have hsex' : exactE S P none (some y) src' = true := by
+            have hd : domB S P src' = true := domB_iff.mpr hsd'
+            have hk : S.isKey s = false := hsk
+            simp only [src', exactE, effOp_own' hown' none, Bool.and_eq_true]
+            refine ⟨⟨⟨hd, by simp [metaOKB, DNode.metas]⟩, by simp [hk]⟩, ?_⟩
+            have hn := (dataEq_iff_norm y (.term s f2 [] v2)).mp hdq
+            exact (dataEq_iff_norm y (.term s f2 [("operation", bs "delete")] v2)).mpr (by rw [hn]; rfl)
+          have hm' : matchP S src' t = true := by
+            rw [matchP_of_same_data (d := .term s f2 [] v2) (d' := src') hsd.ndi rfl rfl rfl]; exact hm
+          have hsafe' : safeP S cur none t src' = true := by
+            have e1 : effOp (DNode.term s f2 [("operation", bs "delete")] v2) none = some .delete := effOp_own' hown' none
+            simp only [safeP, hsop] at hsafe
+            show safeP S cur none t (.term s f2 [("operation", bs "delete")] v2) = true
+            simp only [safeP, e1]
+            simpa using hsafe
+          obtain ⟨m, hcell, rest⟩ := term_cell_own (fx := fx) K hq htt (show src'.isTerm = true from rfl) hm' htex hlt hsex'
+            (by simp [src', litN, litMeta]) hgx hgy hcop (effOp_own' hown' none) hy hsafe' hot' ⟨_, hown'⟩
+          exact ⟨m, hcell, rest⟩
+    obtain ⟨m, h1, h2, h3, h4, h5, ⟨opm, hopm⟩, h6⟩ := hown
+    refine ⟨m, h1, h2, h3, h4, h5, ?_⟩
+    rw [isRedundant_own S cur none m opm hopm]
+    exact h6
+  · -- the target node is a copy inside a created subtree
+    cases t with
+    | inner => simp [DNode.isTerm] at htt
+    | term s f mt v =>
       simp only [DNode.metas] at hmeta
       subst hmeta
-      obtain ⟨hsd, _, hsk⟩ := exactE_base hsex
-      obtain ⟨y, rfl, hdq, _⟩ := exactE_delete hsex hsop
-      let src' : DNode := .term s f2 [("operation", bs "delete")] v2
-      have hown' : ownOp src' = some .delete := ownOp_of_metas src' .delete rfl
-      have hsd' : Dom S P src' := ⟨hsd.nuo, hsd.ndi, hsd.typed, by
-        rw [K.pinv.pcongr (x := src') (y := .term s f2 [] v2) rfl rfl rfl]; exact hsd.sat⟩
-      have hsex' : exactE S P none (some y) src' = true := by
-        have hd : domB S P src' = true := domB_iff.mpr hsd'
-        have hk : S.isKey s = false := hsk
-        simp only [src', exactE, effOp_own' hown' none, Bool.and_eq_true]
-        refine ⟨⟨⟨hd, by simp [metaOKB, DNode.metas]⟩, by simp [hk]⟩, ?_⟩
-        have hn := (dataEq_iff_norm y (.term s f2 [] v2)).mp hdq
-        exact (dataEq_iff_norm y (.term s f2 [("operation", bs "delete")] v2)).mpr (by rw [hn]; rfl)
-      have hm' : matchP S src' t = true := by
-        rw [matchP_of_same_data (d := .term s f2 [] v2) (d' := src') hsd.ndi rfl rfl rfl]; exact hm
-      have hsafe' : safeP S cur none t src' = true := by
-        have e1 : effOp (DNode.term s f2 [("operation", bs "delete")] v2) none = some .delete := effOp_own' hown' none
-        simp only [safeP, hsop] at hsafe
-        show safeP S cur none t (.term s f2 [("operation", bs "delete")] v2) = true
-        simp only [safeP, e1]
-        simpa using hsafe
-      obtain ⟨m, hcell, rest⟩ := term_cell_own (fx := fx) K hq htt (show src'.isTerm = true from rfl) hm' htex hlt hsex'
-        (by simp [src', litN, litMeta]) hgx hgy hcop (effOp_own' hown' none) hy hsafe' hot' ⟨_, hown'⟩
-      exact ⟨m, hcell, rest⟩
+      have hc : cop = .create := by
+        have : effOp (DNode.term s f [] v) (some .create) = some .create := by simp [effOp, ownOp, getMeta, DNode.metas]
+        rw [hcop] at this; exact Option.some.inj this
+      subst hc
+      obtain ⟨hx0, _⟩ := exactE_create htex hcop
+      subst hx0
+      exact term_cell_plain K hst hm htex hsex hls hgy hsop (by simpa [tEff] using hy) hos'
 
 end LyModel.Diff.K13
 
